@@ -699,6 +699,11 @@ func runC05(c *core.Ctx) {
 	ruleAdvertisedSignature(c, typeIface)
 	c.Doc("C05.proxy-body", "the generated proxy passes one argument per parameter in order", 1)
 	ruleProxyBody(c, typeIface)
+	c.Doc("C05.proxy-resolve", "the generic proxy resolves a call by method name and parameter signature (overloads kept apart)", 2)
+	ruleProxyResolvesBySignature(c, "C05.proxy-resolve")
+	// the signal helpers the stubs generate end in signalHandler.UpdateSignal (rule shared with C13)
+	c.Doc("C13.sequential", "a signal emitted through the generated helper is written to every subscriber, in order, by the emitting goroutine", 1)
+	ruleEmitSequential(c, "C13.sequential")
 }
 
 func stripFn(ts []etok) []etok {
